@@ -1,6 +1,6 @@
 (* Props/C08.v *)
 From Coq Require Import List ZArith Bool.
-From ND Require Import Ndx.Slice1D Ndx.Slice1DFacts.
+From ND Require Import Base.Tensor Ndx.Slice1D Ndx.Slice1DFacts Ndx.Index Ndx.GetItem Ndx.GetItemProof.
 Import ListNotations.
 Open Scope Z_scope.
 
@@ -18,3 +18,34 @@ Proof. exact slice_1d_oob_differs. Qed.
 
 Example C08_ex : in_bounds 5 None None (Some (-2)) /\ py_slice 5 None None (Some (-2)) = [4; 2; 0].
 Proof. exact slice_1d_ex. Qed.
+
+(* n-D: for every element type, every well-formed tensor of every shape and rank, and every index
+   tuple made of integers, slices inside the standard's bounds (any step sign, bounds given or
+   omitted, extents below 2^62) and None: the lowering — index normalisation, one Slice pass over
+   the stepped axes, one Gather per integer axis in reverse order with onnxruntime's range check,
+   one Unsqueeze — succeeds and returns exactly the array NumPy's left-to-right semantics defines
+   (same shape, same element at every position). *)
+Theorem C08_getitem_nd : forall (A : Type) (t : tensor A) (index : list item) (d : A) (r : tensor A),
+  wf t -> valid index (shape t) -> np_getitem t index d = Some r -> ndx_getitem_user t index d = Done r.
+Proof. exact @getitem_nd. Qed.
+Print Assumptions C08_getitem_nd.
+
+(* with one Ellipsis: it stands for the full slices that the lowering expands it to *)
+Theorem C08_getitem_nd_ellipsis : forall (A : Type) (t : tensor A) (index : list item) (d : A) (r : tensor A),
+  wf t ->
+  let ex := expand_ellipsis (Z.of_nat (length (shape t))) index in
+  valid ex (shape t) -> np_getitem t ex d = Some r -> ndx_getitem_user t index d = Done r.
+Proof. exact @getitem_nd_ellipsis. Qed.
+Print Assumptions C08_getitem_nd_ellipsis.
+
+(* every position onnxruntime's Slice selects lies inside the axis (no out-of-range read), for any
+   start/stop/step whatsoever *)
+Theorem C08_slice_positions_in_range : forall n q, 0 <= n -> Forall (fun x => 0 <= x < n) (onnx_slice n (Some q)).
+Proof. exact onnx_slice_range. Qed.
+Print Assumptions C08_slice_positions_in_range.
+
+Example C08_nd_ex :
+  let t := tab [3; 4]%nat (fun idx => Z.of_nat (ravel [3; 4]%nat idx)) in
+  let index := [INone; ISlice None None (Some (-2)); IInt (-1)] in
+  valid index (shape t) /\ ndx_getitem_user t index 0 = Done {| shape := [1; 2]%nat; data := [11; 3] |}.
+Proof. exact getitem_nd_ex. Qed.
